@@ -833,6 +833,19 @@ func verifyAttempt(payment *MPPayment, attempt *HTLCAttemptInfo) error {
 		if mpp.TotalMsat() != hMpp.TotalMsat() {
 			return ErrMPPTotalAmountMismatch
 		}
+
+		// The shards of an AMP payment are children of one and the
+		// same set, and they can't be mixed with shards that carry no
+		// AMP record: the receiver could never reassemble them.
+		amp := attempt.Route.FinalHop().AMP
+		hAmp := h.Route.FinalHop().AMP
+		switch {
+		case (amp == nil) != (hAmp == nil):
+			return ErrMixedAMPAndNonAMPShards
+
+		case amp != nil && amp.SetID() != hAmp.SetID():
+			return ErrAMPSetIDMismatch
+		}
 	}
 
 	// If this is a non-MPP attempt, it must match the total amount
